@@ -364,13 +364,12 @@ structure Dec where
   hash      : HashDec
   init      : Bool
   matchArgs : Bool
-  hasCustom : Bool
   deriving DecidableEq, Repr, Inhabited
 
 def decisions (c : Case) : Dec :=
   { isFrozen := isFrozen c, gss := gssDec c, repr := reprDec c, str := strFlag c, eq := eqDec c,
     order := orderDec c, hooks := hooks c, hash := hashDec c, init := initDec c,
-    matchArgs := matchArgsDec c, hasCustom := hasCustomSetattr c }
+    matchArgs := matchArgsDec c }
 
 /-- `wrapDecide`: the error raised while decorating, or the decisions taken -/
 def wrapDecide (c : Case) : Except String Dec :=
@@ -413,13 +412,15 @@ def getattrOwnSetattr (d : Dict) (inherited : Bool) : Bool :=
   if d.has ownSetattrKey then d.get ownSetattrKey == .vTrue else inherited
 
 /-- `_patch_original_class`: delete the field definitions, `setattr` every generated name, and reset an
-    inherited attrs `__setattr__`. `inherited` = some class in the MRO has `__attrs_own_setattr__ = True`. -/
+    inherited attrs `__setattr__` — unless the class has a `__setattr__` of its own
+    (`_has_own_attribute(cls, "__setattr__")`, whatever auto_detect says: the K8 repair).
+    `inherited` = some class in the MRO has `__attrs_own_setattr__ = True`. -/
 def patchOriginal (cd0 : Dict) (d : Dec) (inherited : Bool) : Dict :=
   let c0 := fieldNames.foldl Dict.erase cd0
   let c1 := applyWrites c0 (builderWrites d)
   if !wroteOwnSetattr d && getattrOwnSetattr c1 inherited then
     let c2 := c1.set ownSetattrKey .vFalse
-    if !d.hasCustom then c2.set "__setattr__" .objSetattr else c2
+    if !hasOwn c2 "__setattr__" then c2.set "__setattr__" .objSetattr else c2
   else c1
 
 /-- `_create_slots_class`: copy of the class dict updated with the generated names, minus the dropped keys;
@@ -431,7 +432,8 @@ def createSlots (cd0 : Dict) (d : Dec) (direct : Bool) : Dict :=
   let c3 :=
     if !wroteOwnSetattr d then
       let c := c2.set ownSetattrKey .vFalse
-      if !d.hasCustom && direct then c.set "__setattr__" .objSetattr else c
+      -- `_has_own_attribute(self._cls, "__setattr__")`: the original class's own dict
+      if !hasOwn cd0 "__setattr__" && direct then c.set "__setattr__" .objSetattr else c
     else c2
   implicitHash c3
 
